@@ -1,7 +1,633 @@
-//! Lane `entry` (stub).
-use crate::out::Out;
+//! Lane `entry` (C15): real `SearchEntry::construct` vs Model.Entry, the C15 property evaluated
+//! on the real output, and `std::str::from_utf8` vs Model.Utf8 (`utf8Valid`).
+use crate::fmtx::*;
+use crate::lanes::ber::spec_enc;
+use crate::out::{guarded, Out};
 use crate::rng::Rng;
+use ldap3::{ResultEntry, SearchEntry};
+use lber::parse::parse_tag;
+use lber::structure::StructureTag;
+use std::collections::BTreeMap;
 
-pub fn run(_thorough: bool, _rng: Rng, out: Out) {
-    out.finish("stub lane: nothing generated yet");
+type Attr = (Vec<u8>, Vec<Vec<u8>>);
+
+#[derive(Clone)]
+struct GenEntry {
+    dn: Vec<u8>,
+    attrs: Vec<Attr>,
+}
+
+/// RFC 4511 §4.5.2: [APPLICATION 4] SEQUENCE { objectName, SEQUENCE OF SEQUENCE { type, SET OF value } }
+fn attr_tlv(a: &Attr) -> StructureTag {
+    cons(0, 16, vec![prim(0, 4, a.0.clone()), cons(0, 17, a.1.iter().map(|v| prim(0, 4, v.clone())).collect())])
+}
+
+fn entry_tlv(e: &GenEntry) -> StructureTag {
+    cons(1, 4, vec![prim(0, 4, e.dn.clone()), cons(0, 16, e.attrs.iter().map(attr_tlv).collect())])
+}
+
+/// Independent UTF-8 acceptance oracle (decode to a scalar value, then RFC 3629 §3: shortest
+/// form, no surrogates, at most U+10FFFF) — deliberately a different formulation than the Lean model.
+fn spec_utf8(b: &[u8]) -> bool {
+    let mut i = 0;
+    while i < b.len() {
+        let b0 = b[i] as u32;
+        let (n, min, init) = if b0 < 0x80 {
+            (0, 0, b0)
+        } else if b0 & 0xE0 == 0xC0 {
+            (1, 0x80, b0 & 0x1F)
+        } else if b0 & 0xF0 == 0xE0 {
+            (2, 0x800, b0 & 0x0F)
+        } else if b0 & 0xF8 == 0xF0 {
+            (3, 0x10000, b0 & 0x07)
+        } else {
+            return false;
+        };
+        if i + n >= b.len() {
+            return false; // truncated
+        }
+        let mut cp = init;
+        for k in 1..=n {
+            let c = b[i + k] as u32;
+            if c & 0xC0 != 0x80 {
+                return false;
+            }
+            cp = (cp << 6) | (c & 0x3F);
+        }
+        if cp < min || cp > 0x10FFFF || (0xD800..=0xDFFF).contains(&cp) {
+            return false;
+        }
+        i += n + 1;
+    }
+    true
+}
+
+// ---------------------------------------------------------------- value generators
+
+const EDGE_CHARS: &[u32] = &[0x80, 0x7FF, 0x800, 0xFFF, 0x1000, 0xCFFF, 0xD000, 0xD7FF, 0xE000, 0xFFFD, 0xFFFF, 0x10000, 0x3FFFF, 0x40000, 0xFFFFF, 0x100000, 0x10FFFF, 0xE9, 0x20AC, 0x1F600];
+
+/// hand-written encoder (RFC 3629 table), not std's
+fn enc_char(cp: u32, out: &mut Vec<u8>) {
+    if cp < 0x80 {
+        out.push(cp as u8);
+    } else if cp < 0x800 {
+        out.push(0xC0 | (cp >> 6) as u8);
+        out.push(0x80 | (cp & 0x3F) as u8);
+    } else if cp < 0x10000 {
+        out.push(0xE0 | (cp >> 12) as u8);
+        out.push(0x80 | ((cp >> 6) & 0x3F) as u8);
+        out.push(0x80 | (cp & 0x3F) as u8);
+    } else {
+        out.push(0xF0 | (cp >> 18) as u8);
+        out.push(0x80 | ((cp >> 12) & 0x3F) as u8);
+        out.push(0x80 | ((cp >> 6) & 0x3F) as u8);
+        out.push(0x80 | (cp & 0x3F) as u8);
+    }
+}
+
+fn rand_scalar(rng: &mut Rng) -> u32 {
+    loop {
+        let cp = match rng.below(4) {
+            0 => *rng.pick(EDGE_CHARS),
+            1 => rng.range(0x80, 0x7FF) as u32,
+            2 => rng.range(0x800, 0xFFFF) as u32,
+            _ => rng.range(0x10000, 0x10FFFF) as u32,
+        };
+        if !(0xD800..=0xDFFF).contains(&cp) {
+            return cp;
+        }
+    }
+}
+
+fn gen_ascii(rng: &mut Rng) -> Vec<u8> {
+    let n = rng.below(9) as usize;
+    (0..n).map(|_| if rng.chance(1, 12) { *rng.pick(&[0u8, 0x7f, 0x0a, 0x20]) } else { rng.range(0x21, 0x7e) as u8 }).collect()
+}
+
+fn gen_multibyte(rng: &mut Rng) -> Vec<u8> {
+    let n = rng.range(1, 4);
+    let mut v = vec![];
+    for _ in 0..n {
+        if rng.chance(1, 4) {
+            v.push(rng.range(0x21, 0x7e) as u8);
+        }
+        enc_char(rand_scalar(rng), &mut v);
+    }
+    v
+}
+
+const BAD: &[&[u8]] = &[
+    &[0x80], &[0xBF], &[0xA0],                      // lone continuation
+    &[0xC0, 0x80], &[0xC1, 0xBF],                   // overlong 2
+    &[0xE0, 0x80, 0x80], &[0xE0, 0x9F, 0xBF],       // overlong 3
+    &[0xF0, 0x80, 0x80, 0x80], &[0xF0, 0x8F, 0xBF, 0xBF], // overlong 4
+    &[0xED, 0xA0, 0x80], &[0xED, 0xBF, 0xBF], &[0xED, 0xB0, 0x80], // surrogates
+    &[0xC3], &[0xE2, 0x82], &[0xE2], &[0xF0, 0x9F, 0x98], &[0xF0, 0x9F], &[0xF4], // truncated
+    &[0xF4, 0x90, 0x80, 0x80], &[0xF5, 0x80, 0x80, 0x80], // above U+10FFFF
+    &[0xF5], &[0xF8], &[0xFB], &[0xFC], &[0xFE], &[0xFF], &[0xF8, 0x88, 0x80, 0x80, 0x80], // never valid
+    &[0xC3, 0x28], &[0xE2, 0x28, 0xA1], &[0xE2, 0x82, 0x28], &[0xF0, 0x28, 0x8C, 0xBC], &[0xF0, 0x90, 0x28, 0xBC], // bad continuation
+];
+
+fn gen_invalid(rng: &mut Rng) -> Vec<u8> {
+    let mut v = vec![];
+    if rng.chance(1, 3) {
+        v.extend(gen_ascii(rng));
+    }
+    if rng.chance(1, 5) {
+        enc_char(rand_scalar(rng), &mut v);
+    }
+    let frag = *rng.pick(BAD);
+    v.extend_from_slice(frag);
+    // a truncated sequence stays invalid only if what follows is not a continuation byte
+    if rng.chance(1, 3) {
+        v.extend(gen_ascii(rng));
+    }
+    if rng.chance(1, 6) {
+        v.push(rng.range(0xF5, 0xFF) as u8);
+    }
+    v
+}
+
+/// 0 = ascii, 1 = multi-byte, 2 = invalid
+fn gen_value(rng: &mut Rng, class: u8) -> Vec<u8> {
+    match class {
+        0 => gen_ascii(rng),
+        1 => gen_multibyte(rng),
+        _ => gen_invalid(rng),
+    }
+}
+
+fn gen_type(rng: &mut Rng, i: usize) -> Vec<u8> {
+    let mut v: Vec<u8> = match rng.below(6) {
+        0 => b"cn".to_vec(),
+        1 => b"jpegPhoto;binary".to_vec(),
+        2 => b"objectGUID".to_vec(),
+        3 => {
+            let mut m = vec![];
+            enc_char(rand_scalar(rng), &mut m);
+            m
+        }
+        4 => vec![],
+        _ => gen_ascii(rng),
+    };
+    // make it unique within the entry
+    v.extend(format!("{}", i).bytes());
+    if i == 0 && rng.chance(1, 10) {
+        v.clear(); // the empty attribute description
+    }
+    v
+}
+
+fn gen_dn(rng: &mut Rng) -> Vec<u8> {
+    match rng.below(4) {
+        0 => vec![],
+        1 => b"cn=admin,dc=example,dc=org".to_vec(),
+        2 => {
+            let mut v = b"cn=".to_vec();
+            v.extend(gen_multibyte(rng));
+            v
+        }
+        _ => gen_ascii(rng),
+    }
+}
+
+fn gen_entry(rng: &mut Rng, max_attrs: u64, max_vals: u64, inv_pct: u64) -> GenEntry {
+    let n = rng.below(max_attrs + 1) as usize;
+    let mut attrs = vec![];
+    for i in 0..n {
+        let k = rng.below(max_vals + 1) as usize;
+        // attribute flavour: all text, or mixed
+        let mixed = rng.below(100) < inv_pct;
+        let vals = (0..k)
+            .map(|_| {
+                let class = if mixed { rng.below(3) as u8 } else { rng.below(2) as u8 };
+                gen_value(rng, class)
+            })
+            .collect();
+        attrs.push((gen_type(rng, i), vals));
+    }
+    GenEntry { dn: gen_dn(rng), attrs }
+}
+
+// ---------------------------------------------------------------- running the real code
+
+fn show_map<V: AsRef<[u8]>>(m: &std::collections::HashMap<String, Vec<V>>) -> String {
+    let mut ks: Vec<(&[u8], &Vec<V>)> = m.iter().map(|(k, v)| (k.as_bytes(), v)).collect();
+    ks.sort_by(|a, b| a.0.cmp(b.0));
+    let items: Vec<String> = ks
+        .iter()
+        .map(|(k, vs)| format!("{}:[{}]", hex(k), vs.iter().map(|v| hex(v.as_ref())).collect::<Vec<_>>().join(",")))
+        .collect();
+    format!("{{{}}}", items.join(";"))
+}
+
+fn show(se: &SearchEntry) -> String {
+    format!("ok dn={} text={} bin={}", hex(se.dn.as_bytes()), show_map(&se.attrs), show_map(&se.bin_attrs))
+}
+
+fn real_construct(t: &StructureTag) -> Result<SearchEntry, String> {
+    let t = t.clone();
+    guarded(move || SearchEntry::construct(ResultEntry::new(t)))
+}
+
+fn outcome(r: &Result<SearchEntry, String>) -> String {
+    match r {
+        Ok(se) => show(se),
+        Err(_) => String::from("panic"),
+    }
+}
+
+fn sorted(v: &[Vec<u8>]) -> Vec<Vec<u8>> {
+    let mut s = v.to_vec();
+    s.sort();
+    s
+}
+
+/// C15 evaluated on the real output, for an entry with pairwise distinct, valid types:
+/// partition (exactly one map), order in the text map, multiset in the binary map, nothing else.
+fn c15_oracle(e: &GenEntry, se: &SearchEntry) -> Result<(), String> {
+    if se.dn.as_bytes() != &e.dn[..] {
+        return Err(format!("dn {}", hex(se.dn.as_bytes())));
+    }
+    for (a, vals) in &e.attrs {
+        let key = match std::str::from_utf8(a) {
+            Ok(k) => k,
+            Err(_) => return Err(String::from("oracle applied to a non-UTF-8 type")),
+        };
+        let all_valid = vals.iter().all(|v| spec_utf8(v));
+        let t = se.attrs.get(key);
+        let b = se.bin_attrs.get(key);
+        if all_valid {
+            match t {
+                Some(ts) if ts.len() == vals.len() && ts.iter().zip(vals).all(|(x, y)| x.as_bytes() == &y[..]) => {}
+                _ => return Err(format!("text attribute {} missing or altered", hex(a))),
+            }
+            if b.is_some() {
+                return Err(format!("text attribute {} also in bin_attrs", hex(a)));
+            }
+        } else {
+            if t.is_some() {
+                return Err(format!("binary attribute {} in attrs", hex(a)));
+            }
+            match b {
+                Some(bs) if sorted(bs) == sorted(vals) => {}
+                _ => return Err(format!("binary attribute {} missing or not the same multiset", hex(a))),
+            }
+        }
+    }
+    if se.attrs.len() + se.bin_attrs.len() != e.attrs.len() {
+        return Err(String::from("number of keys differs from number of attributes"));
+    }
+    for k in se.attrs.keys().chain(se.bin_attrs.keys()) {
+        if !e.attrs.iter().any(|(a, _)| &a[..] == k.as_bytes()) {
+            return Err(format!("foreign key {}", hex(k.as_bytes())));
+        }
+    }
+    Ok(())
+}
+
+/// what `C15_duplicates_characterised` says, computed independently
+fn dup_oracle(e: &GenEntry, se: &SearchEntry) -> Result<(), String> {
+    let mut text: BTreeMap<Vec<u8>, Vec<Vec<u8>>> = BTreeMap::new();
+    let mut bin: BTreeMap<Vec<u8>, Vec<Vec<u8>>> = BTreeMap::new();
+    for (a, vals) in &e.attrs {
+        if vals.iter().all(|v| spec_utf8(v)) {
+            text.insert(a.clone(), vals.clone()); // last one wins
+        } else {
+            let l = bin.entry(a.clone()).or_default();
+            l.extend(vals.iter().filter(|v| !spec_utf8(v)).cloned());
+            l.extend(vals.iter().filter(|v| spec_utf8(v)).cloned());
+        }
+    }
+    let got_text: BTreeMap<Vec<u8>, Vec<Vec<u8>>> =
+        se.attrs.iter().map(|(k, v)| (k.as_bytes().to_vec(), v.iter().map(|s| s.as_bytes().to_vec()).collect())).collect();
+    let got_bin: BTreeMap<Vec<u8>, Vec<Vec<u8>>> = se.bin_attrs.iter().map(|(k, v)| (k.as_bytes().to_vec(), v.clone())).collect();
+    if se.dn.as_bytes() != &e.dn[..] {
+        return Err(String::from("dn"));
+    }
+    if got_text != text {
+        return Err(String::from("text map is not 'last all-text occurrence wins'"));
+    }
+    if got_bin != bin {
+        return Err(String::from("binary map is not the concatenation of (invalid ++ valid) chunks"));
+    }
+    Ok(())
+}
+
+#[derive(PartialEq, Clone, Copy)]
+enum Expect {
+    /// well-formed: distinct valid types, valid dn -> C15 oracle
+    Wf,
+    /// valid names, repeated types -> duplicate characterisation
+    Dup,
+    /// readable shape with odd classes / ids / trailing elements: same result as for the canonical tree
+    Lenient,
+    Panic,
+}
+
+fn short(s: &str) -> String {
+    if s.len() < 160 {
+        s.to_string()
+    } else {
+        format!("fnv{:x}", fnv(s.as_bytes()))
+    }
+}
+
+/// one case: tree `t` that (for everything but `Panic`) reads as entry `e`
+fn run_case(out: &mut Out, rng: &mut Rng, tag: &str, e: &GenEntry, t: &StructureTag, exp: Expect, nontrivial: bool) {
+    let canon = tlv(t);
+    out.case(&canon, nontrivial);
+    out.stat(&format!("kind.{}", tag));
+    let direct = real_construct(t);
+    let got = outcome(&direct);
+    out.stat(if direct.is_ok() { "outcome.ok" } else { "outcome.panic" });
+    out.m(&format!("entry.construct {}", canon), &got);
+    let id = short(&canon);
+    match (&direct, exp) {
+        (Ok(se), Expect::Wf) => {
+            let r = c15_oracle(e, se);
+            out.r(&format!("entry.c15 {}", id), r.is_ok(), &format!("{} on {}", r.err().unwrap_or_default(), canon));
+            let r = dup_oracle(e, se);
+            out.r(&format!("entry.fold {}", id), r.is_ok(), &format!("{} on {}", r.err().unwrap_or_default(), canon));
+        }
+        (Ok(se), Expect::Dup) | (Ok(se), Expect::Lenient) => {
+            let r = dup_oracle(e, se);
+            out.r(&format!("entry.dup-characterised {}", id), r.is_ok(), &format!("{} on {}", r.err().unwrap_or_default(), canon));
+        }
+        (Err(_), Expect::Panic) => out.r(&format!("entry.panics-on-malformed {}", id), true, ""),
+        (Ok(_), Expect::Panic) => out.r(&format!("entry.panics-on-malformed {}", id), false, &format!("no panic on {}", canon)),
+        (Err(_), _) => out.r(&format!("entry.no-panic {}", id), false, &format!("panic on well-shaped {}", canon)),
+    }
+    // the same through octets: any definite-length encoding -> real lber parser -> construct
+    let bytes = spec_enc(t, rng, true);
+    let parsed = guarded(|| parse_tag(&bytes).ok().map(|(rest, p)| (rest.len(), p)));
+    match parsed {
+        Ok(Some((0, p))) => {
+            if bytes.len() <= 400 {
+                out.m(&format!("ber.parse {}", hex(&bytes)), &format!("ok {} rest=0", tlv(&p)));
+            }
+            let via = outcome(&real_construct(&p));
+            out.r(&format!("entry.via-octets {}", id), p == *t && via == got, &format!("tree or outcome differs via octets {}", hex(&bytes[..bytes.len().min(80)])));
+        }
+        _ => out.r(&format!("entry.via-octets {}", id), false, &format!("lber did not parse {}", hex(&bytes[..bytes.len().min(80)]))),
+    }
+}
+
+/// `Wf` when the types are pairwise distinct, else `Dup`
+fn expect_for(e: &GenEntry) -> Expect {
+    let mut names: Vec<&Vec<u8>> = e.attrs.iter().map(|a| &a.0).collect();
+    names.sort();
+    names.dedup();
+    if names.len() < e.attrs.len() { Expect::Dup } else { Expect::Wf }
+}
+
+fn has_invalid(e: &GenEntry) -> bool {
+    e.attrs.iter().any(|(_, vs)| vs.iter().any(|v| !spec_utf8(v)))
+}
+
+// ---------------------------------------------------------------- malformed / lenient shapes
+
+fn malformed(rng: &mut Rng, e: &GenEntry) -> (String, StructureTag, Expect, GenEntry) {
+    let mut e = e.clone();
+    if e.attrs.is_empty() {
+        e.attrs.push((b"cn".to_vec(), vec![b"x".to_vec()]));
+    }
+    let dnp = prim(0, 4, e.dn.clone());
+    let mut akids: Vec<StructureTag> = e.attrs.iter().map(attr_tlv).collect();
+    let i = rng.below(akids.len() as u64) as usize;
+    let (ty, vals) = e.attrs[i].clone();
+    let valk: Vec<StructureTag> = vals.iter().map(|v| prim(0, 4, v.clone())).collect();
+    let bad = gen_invalid(rng);
+    let which = rng.below(20);
+    let name;
+    let mut exp = Expect::Panic;
+    let t = match which {
+        0 => { name = "top-id"; cons(1, *rng.pick(&[0u64, 3, 5, 19, 25, 30]), vec![dnp, cons(0, 16, akids)]) }
+        1 => { name = "top-primitive"; prim(1, 4, e.dn.clone()) }
+        2 => { name = "top-empty"; cons(1, 4, vec![]) }
+        3 => { name = "no-attr-list"; cons(1, 4, vec![dnp]) }
+        4 => { name = "dn-constructed"; cons(1, 4, vec![cons(0, 4, vec![dnp]), cons(0, 16, akids)]) }
+        5 => { name = "attr-list-primitive"; cons(1, 4, vec![dnp, prim(0, 16, vec![0x30, 0x00])]) }
+        6 => { name = "dn-not-utf8"; cons(1, 4, vec![prim(0, 4, bad), cons(0, 16, akids)]) }
+        7 => { name = "attr-primitive"; akids[i] = prim(0, 16, ty.clone()); cons(1, 4, vec![dnp, cons(0, 16, akids)]) }
+        8 => { name = "attr-empty"; akids[i] = cons(0, 16, vec![]); cons(1, 4, vec![dnp, cons(0, 16, akids)]) }
+        9 => { name = "type-constructed"; akids[i] = cons(0, 16, vec![cons(0, 4, vec![]), cons(0, 17, valk)]); cons(1, 4, vec![dnp, cons(0, 16, akids)]) }
+        10 => { name = "no-values-element"; akids[i] = cons(0, 16, vec![prim(0, 4, ty.clone())]); cons(1, 4, vec![dnp, cons(0, 16, akids)]) }
+        11 => { name = "values-primitive"; akids[i] = cons(0, 16, vec![prim(0, 4, ty.clone()), prim(0, 17, vec![])]); cons(1, 4, vec![dnp, cons(0, 16, akids)]) }
+        12 => {
+            name = "value-constructed";
+            let mut vk = valk.clone();
+            let j = rng.below(vk.len() as u64 + 1) as usize;
+            vk.insert(j, cons(0, 4, vec![prim(0, 4, b"x".to_vec())]));
+            akids[i] = cons(0, 16, vec![prim(0, 4, ty.clone()), cons(0, 17, vk)]);
+            cons(1, 4, vec![dnp, cons(0, 16, akids)])
+        }
+        13 => { name = "type-not-utf8"; akids[i] = cons(0, 16, vec![prim(0, 4, bad), cons(0, 17, valk)]); cons(1, 4, vec![dnp, cons(0, 16, akids)]) }
+        14 => { name = "swapped"; cons(1, 4, vec![cons(0, 16, akids), dnp]) }
+        // ---- shapes the code accepts although they are not RFC 4511 (nothing but the top tag number is checked)
+        15 => { name = "lenient-top-class"; exp = Expect::Lenient; cons(*rng.pick(&[0u8, 2, 3]), 4, vec![dnp, cons(0, 16, akids)]) }
+        16 => { name = "lenient-trailing"; exp = Expect::Lenient; cons(1, 4, vec![dnp, cons(0, 16, akids), prim(0, 4, b"junk".to_vec()), cons(2, 0, vec![])]) }
+        17 => {
+            name = "lenient-attr-trailing";
+            exp = Expect::Lenient;
+            akids[i] = cons(0, 16, vec![prim(0, 4, ty.clone()), cons(0, 17, valk), cons(0, 17, vec![prim(0, 4, vec![0xff])]), prim(0, 4, vec![])]);
+            cons(1, 4, vec![dnp, cons(0, 16, akids)])
+        }
+        18 => {
+            name = "lenient-inner-tags";
+            exp = Expect::Lenient;
+            let vk: Vec<StructureTag> = vals.iter().map(|v| prim(rng.below(4) as u8, rng.below(31), v.clone())).collect();
+            akids[i] = cons(rng.below(4) as u8, rng.below(31), vec![prim(rng.below(4) as u8, rng.below(31), ty.clone()), cons(rng.below(4) as u8, rng.below(31), vk)]);
+            cons(1, 4, vec![prim(rng.below(4) as u8, rng.below(31), e.dn.clone()), cons(rng.below(4) as u8, rng.below(31), akids)])
+        }
+        _ => { name = "lenient-empty-attr-list"; exp = Expect::Lenient; e.attrs.clear(); cons(1, 4, vec![dnp, cons(0, 16, vec![])]) }
+    };
+    (name.to_string(), t, exp, e)
+}
+
+// ---------------------------------------------------------------- UTF-8 tie
+
+fn utf8_case(out: &mut Out, b: &[u8], mism: &mut u64) {
+    let real = std::str::from_utf8(b).is_ok();
+    out.case(&format!("utf8 {}", hex(b)), b.iter().any(|x| *x >= 0x80));
+    out.m(&format!("utf8.valid {}", hex(b)), if real { "true" } else { "false" });
+    out.stat(if real { "utf8.valid" } else { "utf8.invalid" });
+    if spec_utf8(b) != real {
+        *mism += 1;
+        out.r(&format!("utf8.rfc3629 {}", hex(b)), false, "from_utf8 disagrees with the RFC 3629 oracle");
+    }
+    // String::from_utf8 (used for DN and attribute type) is the same acceptance
+    if String::from_utf8(b.to_vec()).is_ok() != real {
+        *mism += 1;
+        out.r(&format!("utf8.string {}", hex(b)), false, "String::from_utf8 differs from str::from_utf8");
+    }
+}
+
+const EDGE2: &[u8] = &[0x7F, 0x80, 0x8F, 0x90, 0x9F, 0xA0, 0xBF, 0xC0];
+const EDGE16: &[u8] = &[0x00, 0x41, 0x7F, 0x80, 0x81, 0x8F, 0x90, 0x9F, 0xA0, 0xBF, 0xC0, 0xC2, 0xE0, 0xF0, 0xF4, 0xFF];
+
+fn utf8_tie(thorough: bool, rng: &mut Rng, out: &mut Out) {
+    let mut mism = 0u64;
+    utf8_case(out, &[], &mut mism);
+    for a in 0..=255u8 {
+        utf8_case(out, &[a], &mut mism);
+    }
+    for a in 0..=255u8 {
+        for b in 0..=255u8 {
+            utf8_case(out, &[a, b], &mut mism);
+        }
+    }
+    out.stat_n("utf8.exhaustive-1-2-byte", 65792);
+    if thorough {
+        // every 3-byte sequence starting with a 3-byte lead
+        for a in 0xE0..=0xEFu8 {
+            for b in 0..=255u8 {
+                for c in 0..=255u8 {
+                    utf8_case(out, &[a, b, c], &mut mism);
+                }
+            }
+        }
+    }
+    for a in [0xE0u8, 0xE1, 0xEC, 0xED, 0xEE, 0xEF] {
+        for b in EDGE2 {
+            for c in 0..=255u8 {
+                utf8_case(out, &[a, *b, c], &mut mism);
+            }
+        }
+    }
+    for a in [0xF0u8, 0xF1, 0xF3, 0xF4, 0xF5] {
+        for b in EDGE2 {
+            for c in EDGE16 {
+                for d in EDGE16 {
+                    utf8_case(out, &[a, *b, *c, *d], &mut mism);
+                }
+            }
+            if thorough {
+                for c in 0..=255u8 {
+                    for d in EDGE16 {
+                        utf8_case(out, &[a, *b, c, *d], &mut mism);
+                    }
+                }
+            }
+        }
+    }
+    // a valid multi-byte character followed by every 2-byte tail (state after a complete character)
+    for b in EDGE16 {
+        for c in EDGE16 {
+            utf8_case(out, &[0xC3, 0xA9, *b, *c], &mut mism);
+            utf8_case(out, &[0xE2, 0x82, 0xAC, *b, *c], &mut mism);
+            utf8_case(out, &[0xF0, 0x9F, 0x98, 0x80, *b, *c], &mut mism);
+        }
+    }
+    let n = if thorough { 200000 } else { 6000 };
+    for _ in 0..n {
+        let mut v = vec![];
+        let parts = rng.range(1, 6);
+        for _ in 0..parts {
+            match rng.below(5) {
+                0 => v.extend(gen_ascii(rng)),
+                1 | 2 => v.extend(gen_multibyte(rng)),
+                3 => v.extend_from_slice(*rng.pick(BAD)),
+                _ => {
+                    let k = rng.range(1, 5) as usize;
+                    v.extend(rng.bytes(k));
+                }
+            }
+        }
+        utf8_case(out, &v, &mut mism);
+    }
+    out.r("utf8.rfc3629-oracle-and-String-agree-on-all-cases", mism == 0, &format!("{} disagreements (listed above)", mism));
+}
+
+// ---------------------------------------------------------------- lane
+
+pub fn run(thorough: bool, mut rng: Rng, mut out: Out) {
+    // ---- corpus: fixed witnesses first
+    let corpus: Vec<GenEntry> = vec![
+        GenEntry { dn: b"cn=a".to_vec(), attrs: vec![] },
+        GenEntry { dn: vec![], attrs: vec![(b"cn".to_vec(), vec![])] },
+        GenEntry { dn: vec![0x63, 0x6e, 0x3d, 0xc3, 0xa9], attrs: vec![
+            (b"cn".to_vec(), vec![b"a".to_vec(), vec![0xc3, 0xa9]]),
+            (b"j".to_vec(), vec![b"a".to_vec(), vec![0xff], b"b".to_vec(), vec![0x80]]),
+            (b"e".to_vec(), vec![]),
+        ] },
+        // same value twice, valid and invalid twice: multiset, not set
+        GenEntry { dn: b"x".to_vec(), attrs: vec![(b"m".to_vec(), vec![vec![0xff], b"a".to_vec(), vec![0xff], b"a".to_vec()])] },
+        GenEntry { dn: b"x".to_vec(), attrs: vec![(vec![], vec![vec![0xed, 0xa0, 0x80]]), (b"b".to_vec(), vec![vec![0xc0, 0x80]])] },
+    ];
+    for e in &corpus {
+        let t = entry_tlv(e);
+        run_case(&mut out, &mut rng, "corpus", e, &t, Expect::Wf, true);
+    }
+    let dup = GenEntry { dn: b"a".to_vec(), attrs: vec![
+        (b"t".to_vec(), vec![b"1".to_vec()]), (b"t".to_vec(), vec![b"2".to_vec()]),
+        (b"t".to_vec(), vec![vec![0xff], b"3".to_vec()]), (b"t".to_vec(), vec![vec![0xfe]]),
+    ] };
+    run_case(&mut out, &mut rng, "corpus-dup", &dup, &entry_tlv(&dup), Expect::Dup, true);
+
+    // ---- exhaustive validity patterns: every sequence of <= 4 values over {ascii, multi-byte, invalid}
+    let reps = if thorough { 60 } else { 12 };
+    for k in 0..=4u32 {
+        for code in 0..3u32.pow(k) {
+            let pat: Vec<u8> = (0..k).map(|j| ((code / 3u32.pow(j)) % 3) as u8).collect();
+            for rep in 0..reps {
+                let vals: Vec<Vec<u8>> = pat.iter().map(|c| gen_value(&mut rng, *c)).collect();
+                // alone, or in the middle of other attributes
+                let mut e = if rep % 2 == 0 { GenEntry { dn: gen_dn(&mut rng), attrs: vec![] } } else { gen_entry(&mut rng, 3, 3, 40) };
+                let pos = rng.below(e.attrs.len() as u64 + 1) as usize;
+                e.attrs.insert(pos, (b"pattern".to_vec(), vals));
+                out.stat(&format!("pattern.len={}", k));
+                let t = entry_tlv(&e);
+                let exp = expect_for(&e);
+                run_case(&mut out, &mut rng, "pattern", &e, &t, exp, pat.contains(&2));
+            }
+        }
+    }
+    out.stat_n("pattern.exhaustive-3^k-k<=4", 121);
+
+    // ---- random well-formed entries: 0..12 attributes, 0..8 values
+    let n = if thorough { 150000 } else { 12000 };
+    for _ in 0..n {
+        let inv = *rng.pick(&[0u64, 20, 50, 100]);
+        let e = gen_entry(&mut rng, 12, 8, inv);
+        out.stat(&format!("attrs={}", e.attrs.len()));
+        let t = entry_tlv(&e);
+        let nt = has_invalid(&e);
+        let exp = expect_for(&e);
+        run_case(&mut out, &mut rng, "random", &e, &t, exp, nt);
+    }
+
+    // ---- repeated attribute types
+    let n = if thorough { 40000 } else { 3000 };
+    for _ in 0..n {
+        let mut e = gen_entry(&mut rng, 8, 4, 50);
+        if e.attrs.len() < 2 {
+            e.attrs.push((b"a".to_vec(), vec![gen_value(&mut rng, 0)]));
+            e.attrs.push((b"b".to_vec(), vec![gen_value(&mut rng, 2)]));
+        }
+        let copies = rng.range(1, 4);
+        for _ in 0..copies {
+            let from = rng.below(e.attrs.len() as u64) as usize;
+            let to = rng.below(e.attrs.len() as u64) as usize;
+            if from != to {
+                e.attrs[to].0 = e.attrs[from].0.clone();
+            }
+        }
+        let exp = expect_for(&e);
+        let t = entry_tlv(&e);
+        run_case(&mut out, &mut rng, if exp == Expect::Dup { "duplicate-types" } else { "random" }, &e, &t, exp, true);
+    }
+
+    // ---- malformed shapes (panic) and non-RFC shapes the code lets through
+    let n = if thorough { 40000 } else { 3000 };
+    for _ in 0..n {
+        let base = gen_entry(&mut rng, 4, 3, 40);
+        let (name, t, exp, e) = malformed(&mut rng, &base);
+        run_case(&mut out, &mut rng, &name, &e, &t, exp, true);
+    }
+
+    // ---- std::str::from_utf8 vs the model's utf8Valid
+    utf8_tie(thorough, &mut rng, &mut out);
+
+    out.finish("search result entries with 0..12 attributes of 0..8 values (ASCII / multi-byte incl. the U+0080, U+0800, U+D7FF, U+E000, U+10000, U+10FFFF edges / invalid: lone continuation, overlong, surrogate, truncated, > U+10FFFF, F5..FF), every validity pattern of <= 4 values over {ascii, multi-byte, invalid}, repeated attribute types, 15 malformed and 5 non-RFC-but-accepted shapes; each tree is given to the real construct directly and after encoding with random length forms + real lber parse; UTF-8 acceptance: every 1- and 2-byte sequence, 3-/4-byte sequences on the range edges, random mixtures; non-trivial = entry with an invalid value / repeated type / unusual shape, byte string with a byte >= 0x80; distinct by FNV hash of the canonical input");
 }
